@@ -145,7 +145,9 @@ func Run(c *hx.Ctx) {
 			}
 			ih, _ := o.U64("ih")
 			maxp, _ := o.U64("maxp")
-			w.opt = bm.Options{InitialHeight: ih, GenesisTime: time.Unix(0, o.I64("gt")), MaxPending: maxp, Aggregator: true}
+			// sk=<n>: the node signs with key n (default 1 = the genesis proposer's key); sk=2 is a foreign signer
+			sk, _ := o.U64("sk")
+			w.opt = bm.Options{InitialHeight: ih, GenesisTime: time.Unix(0, o.I64("gt")), MaxPending: maxp, Aggregator: true, KeySeed: byte(sk)}
 			w.committed, w.batchOf = map[uint64]string{}, map[uint64][][]byte{}
 			w.maxTs, w.probes, w.tainted, w.cause = o.I64("gt"), 0, "", ""
 			c.Emit("%s", w.start(nil, ""))
@@ -178,12 +180,18 @@ func Run(c *hx.Ctx) {
 				}
 				w.cause = "crash-between-" + last + "-and-" + kindOf(bm.DescribeWS(w.env.DS.Log[keep]))
 			}
+			if sk, ok := o.U64("sk"); ok && sk != 0 {
+				w.opt.KeySeed = byte(sk) // the operator restarts the node with another signing key
+			}
 			img := w.env.DS.ImageAt(keep)
-			root := ""
+			// the cache directory survives both: a clean stop writes the caches to disk (node/full.go:484-495),
+			// possibly cut short by a crash; a crash leaves the directory as the LAST clean stop left it - the
+			// restarted node loads the stale files of that older generation (a mixed old/new set after a cut save)
+			root := w.env.Root
 			if o.Verb == "restart" {
-				// clean stop: the caches are written to disk (node/full.go:484-495), possibly cut short by a crash
-				root = w.env.Root
 				w.saveCaches(o)
+			} else if ents, err := os.ReadDir(filepath.Join(w.env.CacheDir(), "header")); err == nil && len(ents) > 0 {
+				c.Hit("crash-restarts-on-stale-cache-files")
 			}
 			keepRoot := w.env
 			c.Emit("%s", w.start(img, root))
@@ -329,7 +337,8 @@ func (w *World) step(o hx.Op) string {
 	}
 	w.checkChain("step")
 	// liveness probe: two consecutive well-formed steps must raise the height
-	if o.Bool("probe") {
+	// (a node whose signer is not the genesis proposer is not supposed to produce: no liveness demand)
+	if o.Bool("probe") && w.opt.KeySeed <= 1 {
 		if w.probes == 0 {
 			w.probeH = hBefore
 		}
